@@ -27,6 +27,7 @@ LEVEL_TEXT = (
     "10 thorough). Every returned table is compared with the reference evaluator at each row's state, "
     "time and segment parameters; N.v = dx/dt; stacked = per-segment; producers/consumers; three normalisation shapes."
     " Also: reactions with zero and with state-dependent coefficients, the rule that a view leaves the model's parameter values unchanged, and a 'live' family: results taken from a running Simulator after each of 2-4 segments while the simulation continues - every earlier result must remain the function of its own segments."
+    ' Also: live simulators whose parameter starts out defined by an initial assignment and is given numbers for later segments.'
 )
 LEVEL_NOTE = "trusted: mc/refeval.py; states are taken from the stored trajectory (C04 checks the trajectory itself); canonical key = digest of raw_args + model parameter values, which is all the mutable state the views read"
 RULE = (
